@@ -126,7 +126,7 @@ static std::vector<int> lane_weights(const std::string &lane, Rng &r) {
         w_set(w, create_core, 10); w_set(w, links, 10); w_set(w, deletes, 9); w[OP_prop_create] = 5; w[OP_dim_append] = 8; w[OP_reopen] = 8; w[OP_use_stale] = 5; w[OP_abuse_tag] = 2;
     } else if (lane == "reject") {
         w_set(w, create_core, 9); w_set(w, links, 6); w_set(w, attrs, 5); w_set(w, props, 6); w_set(w, arrdata, 5); w_set(w, dimops, 7); w_set(w, frameops, 4); w_set(w, deletes, 2);
-        w[OP_reopen] = 5; w[OP_mk_graph] = 3; w[OP_group_set] = 9; w[OP_tag_setrefs] = 9; w[OP_set_sources] = 6;
+        w[OP_reopen] = 5; w[OP_mk_graph] = 3; w[OP_group_set] = 9; w[OP_tag_setrefs] = 9; w[OP_set_sources] = 6; w[OP_clock] = 7; w[OP_arr_write_whole] = 8;
     } else if (lane == "modes" || lane == "version") {
         w[OP_mk_graph] = 3;
         w_set(w, links, 4); w_set(w, attrs, 3); w_set(w, props, 4); w_set(w, arrdata, 3); w_set(w, dimops, 4); w_set(w, frameops, 3); w_set(w, deletes, 1);
